@@ -60,6 +60,14 @@ def run(ctx, chk):
             want = sets[a] | sets[b]
             chk.check(R3, sets[name] == want, name + "=union", "%s differs from %s ∪ %s on %s" % (
                 name, a, b, sorted(sets[name] ^ want)[:8]), raw.where(name, None, "reflect.rs"))
+    spec_derived = {"is_block_terminator": cls["block_terminator"][0], "is_return_or_abort": cls["return"][0] | cls["abort"][0],
+                    "is_debug": cls["location_debug"][0] | cls["nonlocation_debug"][0]}
+    for name, want in spec_derived.items():
+        if name in sets:
+            for op in sorted(sets[name] ^ want):
+                chk.bad(R3, "%s(%s)" % (name, op), "%s(Op::%s) is %s but the specification says %s" % (
+                    name, op, op in sets[name], op in want), raw.where(name, None, "reflect.rs"), key="C16:%s:%s" % (name, op))
+            chk.ok(R3, name + "=spec-class")
     bl = [n for n in BASE if n in sets]
     for i, a in enumerate(bl):
         for b in bl[i + 1:]:
